@@ -49,8 +49,10 @@ func (search *Search) StartIterativeDeepening(startTime, endTime time.Time, maxD
 		pprof.StartCPUProfile(ProfileFile)
 		defer stopProfiling()
 	}
+	verifSync("entry", 0, 0)
 	var bestLine *Line = &Line{}
 	search.interrupted = false
+	verifSync("started", 0, 0)
 	evaluatedNodes = 0
 	var bestScore int
 	var depthCompleted int = 1
@@ -61,12 +63,14 @@ func (search *Search) StartIterativeDeepening(startTime, endTime time.Time, maxD
 	bestScore, oneLegalMove = search.startAlphaBeta(posGen, 1, &search.bestLineAtDepth[0],
 		bestLine, startTime, endTime)
 	copyBestLine(bestLine, search.bestLineAtDepth[0])
+	verifSync("iter", 1, 0)
 
 	if !time.Now().After(endTime) && !search.interrupted && !oneLegalMove {
 		for currDepth := 2; currDepth <= maxDepth; currDepth++ {
 			var scoreAtDepth int
 			scoreAtDepth, oneLegalMove = search.startAlphaBeta(posGen, currDepth, &search.bestLineAtDepth[0],
 				bestLine, startTime, endTime)
+			verifSync("iter", currDepth, 0)
 
 			if time.Now().After(endTime) {
 				break
@@ -90,8 +94,10 @@ func (search *Search) StartIterativeDeepening(startTime, endTime time.Time, maxD
 			}
 		}
 	}
+	verifSync("prebest", depthCompleted, 0)
 	printInfo(bestScore, depthCompleted, bestLine.moves, time.Since(startTime), "")
 	fmt.Println("bestmove", bestLine.moves[0])
+	verifSync("postbest", depthCompleted, 0)
 }
 
 func copyBestLine(bestLineDst *Line, bestLineSrc []Move) {
@@ -203,6 +209,7 @@ func (search *Search) startAlphaBeta(aPosGen *Generator, targetDepth int, currBe
 			maybePrintNewPvInfo(alpha, targetDepth, search.getBestLine(), time.Duration(time.Since(starttime)), "")
 			// printInfo( alpha, targetDepth, search.getBestLine(), time.Duration(time.Since(starttime)), "in startAB:")
 		}
+		verifSync("rootmove", targetDepth, aPosGen.firstMoveIdx)
 		if search.interrupted || time.Now().After(endtime) {
 			break
 		}
